@@ -208,11 +208,12 @@ def deflate_core_size(out_len: int) -> int:
     return len(co.compress(_plain(0, out_len)) + co.flush()) + 64
 
 
-def deflate_exact(tag: int, out_len: int, in_len: int, wbits: int):
+def deflate_exact(tag: int, out_len: int, in_len: int, wbits: int, plain=None):
     """(plaintext, stream): a deflate (wbits<0) or zlib (wbits>0) stream of exactly in_len bytes that inflates to
     the position-dependent plaintext of out_len bytes. The padding (empty blocks) comes first, so a reader that
     takes fewer than in_len bytes loses real data."""
-    plain = _plain(tag, out_len)
+    if plain is None:
+        plain = _plain(tag, out_len)
     co = zlib.compressobj(9, zlib.DEFLATED, -15 if wbits < 0 else -15)
     core_ = co.compress(plain) + co.flush()
     head = b"" if wbits < 0 else bytes([0x78, 0x9C])
